@@ -19,7 +19,7 @@ HASH_SHARDS = [0, 1, 2]      # parameter ORDER is part of the property: the gene
 PROFILE = grammar.profile(
     sig_variants=True, p_custom=1.0, p_signature=1.0, p_reserved_field=0.3, p_foreign_request=0.4, p_create=0.8,
     p_update=0.7, p_get=0.6, p_delete=0.4, p_list=0.3, p_sstream=0.2, p_cstream=0.0, p_bidi=0.0, p_lro=0.2,
-    p_service_config=0.3, p_yaml=0.05, transports=["grpc", "grpc", "grpc+rest"])
+    p_service_config=0.3, p_yaml=0.05, transports=["grpc", "grpc", "grpc+rest"], p_value_fields=0.5, p_two_services=0.5)
 
 BUDGET = {
     "quick": {"worlds": 150, "runs": 60, "wall_cap": 300, "world_wall": 90},
@@ -136,9 +136,13 @@ def gen_ops(spec, rng, codec, fs, s, m, oid):
             "server": [{"reply": {}}], "mkind": kind}
     ops = [dict(base, id=oid + "k", form="kwargs", kwargs=kw)]
     val = oracle.request_valuation(ops[0])
-    ops.append(dict(base, id=oid + "r", form=rng.choice(["msg", "dict"]), request=val))
-    if kw and rng.random() < 0.5:
-        ops.append(dict(base, id=oid + "b", form="both", request=val, kwargs=kw))
+    rep_value = any(_leaf_fd(desc, p)[1].label == FD.LABEL_REPEATED and _leaf_fd(desc, p)[1].type == FD.TYPE_MESSAGE
+                    and _leaf_fd(desc, p)[1].message_type.full_name == "google.protobuf.Value" for p in kw)
+    if not rep_value:
+        # (a list of google.protobuf.Value cannot be given to a proto-plus constructor: such values only travel as kwargs)
+        ops.append(dict(base, id=oid + "r", form=rng.choice(["msg", "dict"]), request=val))
+        if kw and rng.random() < 0.5:
+            ops.append(dict(base, id=oid + "b", form="both", request=val, kwargs=kw))
     return ops
 
 
@@ -314,6 +318,8 @@ def judge(spec, scenario, history):
                     _bump(probes, "map_param")
                 elif fd.label == FD.LABEL_REPEATED:
                     _bump(probes, "repeated_param")
+                    if fd.type == FD.TYPE_MESSAGE and fd.message_type.full_name == "google.protobuf.Value":
+                        _bump(probes, "repeated_value_param")
                 elif fd.type == FD.TYPE_MESSAGE:
                     _bump(probes, "message_param")
                 v = spc["value"]
